@@ -479,7 +479,7 @@ Proof.
   destruct (interp_ceval cf st Hce Hci e f st1 v ltac:(lia) (pres_ctx _ _ P1) E) as (st2 & E2 & P2).
   pose proof (pres_trans _ _ _ P1 P2) as (C & Mo & Ou & Bu & Cl & Bl).
   cbn [walk_node]. unfold mbind at 1. rewrite E2.
-  assert (Hrest : (ds <-- print_dirs cf (walk cf f) [];;;
+  assert (Hrest : (ds <-- print_dirs cf (walk cf f) [] v;;;
                    s0 <-- lift (value_string v);;;
                    st3 <-- get;;;
                    ws <-- lift (print_writes (mode st3) ds s0);;; _ <-- write_all ws;;; ret VUndef) st2
